@@ -9,7 +9,7 @@ def status_table():
     for l in open('properties.jsonl'):
         d = json.loads(l); props[d['id']] = d['title']
     man = json.load(open('MANIFEST.json'))
-    na = {x['id'] if isinstance(x, dict) else x for x in man.get('not_applicable', [])}
+    na = {(x.get('id') or x.get('property_id') or x.get('property')) if isinstance(x, dict) else x for x in man.get('not_applicable', [])}
     rows = ['| | functions under contract | named obligations (path instances) | discharged | quick wall s | known findings printed |',
             '|---|---|---|---|---|---|']
     for pid in sorted(props):
